@@ -4,7 +4,9 @@
 (* track is paused while the tween runs.  A plain product, printed by TLC.   *)
 EXTENDS Integers, Sequences, TLC, Json
 Params == {"track_vol", "send_vol", "route_vol", "main_vol", "sound_vol", "track_pause", "sound_pause", "track_resume",
-           "main_vol_up", "track_vol_up"}
+           "main_vol_up", "track_vol_up",
+           \* positions and orientations of a spatial scene ("free": only ends and continuity are judged)
+           "listener_turn", "listener_move", "emitter_move"}
 Bufs == {4, 16}
 Patterns == {"b", "b_plus_half", "ones", "threes", "big"}
 Durs == {0, 3, 10, 24, 64}
@@ -15,7 +17,8 @@ Init == sc \in [param : Params, b : Bufs, pat : Patterns, d : Durs, paused : BOO
 Next == UNCHANGED sc
 Spec == Init /\ [][Next]_sc
 \* (pausing the owner only makes sense for a volume that sits on a sub-track or below it)
-Meaningful == /\ sc.paused => sc.param \in {"track_vol", "sound_vol", "route_vol"}
+Meaningful == /\ sc.param \in {"listener_turn", "listener_move", "emitter_move"} => (~sc.paused /\ ~sc.dbl /\ sc.d > 0)
+              /\ sc.paused => sc.param \in {"track_vol", "sound_vol", "route_vol"}
               /\ sc.dbl => (sc.param \in {"track_vol", "send_vol", "route_vol", "main_vol", "sound_vol"} /\ ~sc.paused /\ sc.pat \in {"b", "threes"})
 Dump == Meaningful => PrintT(<<"BEHAVIOUR", ToJson(<<sc>>)>>)
 =============================================================================
